@@ -78,9 +78,48 @@ def check(run, model, tier):
                 d = dotted(t)
                 if d and d.startswith(selfn + '.'):
                     slots.add(d.split('.', 1)[1])
+    # allocation without construction (klass.__new__(klass) / object.__new__(klass)) assigned to an attribute of the decorator
+    alloc_only = []
+    for n in walk_shallow(call.node):
+        if isinstance(n, ast.Assign) and isinstance(n.value, ast.Call) and isinstance(n.value.func, ast.Attribute) and n.value.func.attr == '__new__' \
+                and any(dotted(a_) in {selfn + '.' + k for k in klass_attrs} for a_ in [n.value.func.value] + list(n.value.args)):
+            for t in n.targets:
+                d = dotted(t)
+                if d and d.startswith(selfn + '.'):
+                    slots.add(d.split('.', 1)[1])
+                    alloc_only.append(n)
     if len(slots) != 1:
         raise AnalysisError('cannot identify the instance slot of SingletonDecorator.__call__ (the attribute that receives the constructed object): %s' % sorted(slots))
     slot = slots.pop()
+    # the slot is read without the lock on the fast path: what it holds must be a finished object from the moment it is not None, and must stay
+    run.rule('ATOMIC.singleton-publish', 'the slot receives the object only when its construction is complete, and is never emptied again in __call__')
+    for n in alloc_only:
+        run.inst('ATOMIC.singleton-publish', call, 'the slot receives a constructed object: ' + norm(n)[:60], False,
+                 '__call__ stores the bare allocation %s in the slot and runs __init__ afterwards: the unlocked fast path (`%s.%s is None`) of another thread hands out the object while its '
+                 'constructor is still running' % (norm(n.value), selfn, slot), node=n, obligation=True)
+    resets = [n for n in walk_shallow(call.node) if isinstance(n, ast.Assign) and isinstance(n.value, ast.Constant) and n.value.value is None
+              and any(dotted(t) == '%s.%s' % (selfn, slot) for t in n.targets)]
+    gp_ = cfg_of(call)
+
+    def after_store(reset):
+        """can the reset run after some store of an object into the slot has completed (a path from a normal successor of that store)?"""
+        rn = [m for m in gp_.nodes if m.kind == 'stmt' and m.ast is reset]
+        for a_ in walk_shallow(call.node):
+            if isinstance(a_, ast.Assign) and a_ is not reset and any(dotted(t) == '%s.%s' % (selfn, slot) for t in a_.targets) \
+                    and not (isinstance(a_.value, ast.Constant) and a_.value.value is None):
+                an_ = [m for m in gp_.nodes if m.kind == 'stmt' and m.ast is a_]
+                for m in an_:
+                    for nx, lab in gp_.succ[m]:
+                        if lab != 'exc' and rn and (nx is rn[0] or gp_.exists_path(nx, rn[0])):
+                            return True
+        return False
+    resets = [n for n in resets if after_store(n)]
+    for n in resets:
+        run.inst('ATOMIC.singleton-publish', call, 'the slot is not emptied again: ' + norm(n), False,
+                 '__call__ sets the slot back to None (%s): an object that was already visible in the slot - and may have been handed to another thread by the unlocked fast path - is '
+                 'abandoned and the next request builds a second instance; two "singletons" are in circulation' % norm(n), node=n, obligation=True)
+    if not alloc_only and not resets:
+        run.inst('ATOMIC.singleton-publish', call, 'slot written only with finished objects, never emptied', True, obligation=True)
     locks = lock_attrs(model, cls)
     par = parents(call.node)
     assigns = [n for n in walk_shallow(call.node) if isinstance(n, ast.Assign)
